@@ -213,7 +213,7 @@ impl Property for C10 {
     }
     fn rule(&self, tier: Tier) -> String {
         format!(
-            "All sequences of exactly {} operations over an alphabet of {} API operations (new variable, new literal, new literal for a predicate, post of 14 constraint instances incl. a root-infeasible one and one that fixes a variable at the root, add_clause x7, satisfy, satisfy_under_assumptions x6 with/without core extraction, iterate 1/all solutions, optimise x4) on one solver after a fixed prologue of 4 variables; every prefix of every history is thereby executed. States = distinct history prefixes (no merging: the hidden solver state is what the property is about), transitions = operations extending a prefix. After every operation: no panic, no hang, the result equals the reference for the model accumulated so far (constraints, clauses, blocking clauses of iterated solutions), and the root bounds the solver reports for every variable lie in the declared domain and enclose all solutions of the accumulated model. A case = one complete history; non-trivial = it contains at least one solve after a model change.",
+            "All sequences of exactly {} operations over an alphabet of {} API operations (new variable, new literal, new literal for a predicate, post of 14 constraint instances incl. a root-infeasible one and one that fixes a variable at the root, add_clause x7, satisfy, satisfy_under_assumptions x6 without / with core extraction (extracted twice from the same result), iterate 1/all solutions, optimise x4) on one solver after a fixed prologue of 4 variables; every prefix of every history is thereby executed. States = distinct history prefixes (no merging: the hidden solver state is what the property is about), transitions = operations extending a prefix. After every operation: no panic, no hang, the result equals the reference for the model accumulated so far (constraints, clauses, blocking clauses of iterated solutions), and the root bounds the solver reports for every variable lie in the declared domain and enclose all solutions of the accumulated model. A case = one complete history; non-trivial = it contains at least one solve after a model change.",
             depth(tier),
             alphabet(tier).len()
         )
@@ -450,7 +450,8 @@ pub fn run_history(ops: &[&Op], cx: &mut CaseCtx) {
                     ids: &ids,
                     term: &mut Indefinite,
                     assumptions: &assumptions,
-                    extract: *extract as u8,
+                    // (with extraction: twice on the same result object)
+                    extract: 2 * (*extract as u8),
                 })
                 .call(&mut solver, &mut br);
                 match res {
@@ -461,7 +462,16 @@ pub fn run_history(ops: &[&Op], cx: &mut CaseCtx) {
                             }
                         });
                     }
-                    Ok(AssumeOut::UnsatAssumptions(core, _)) => {
+                    Ok(AssumeOut::UnsatAssumptions(core, again)) => {
+                        match (&core, &again) {
+                            (Some(Ok(a)), Some(Ok(b))) if a != b => {
+                                cx.violation("second-core-differs", format!("{what}: first extraction {a:?}, second {b:?}"));
+                            }
+                            (Some(Ok(_)), Some(Err(e))) => {
+                                cx.violation(format!("{}:extract_core-again", panic_sig(e)), format!("{what}: the second extract_core panicked: {e}"));
+                            }
+                            _ => {}
+                        }
                         judged(cx, &r, &|sols, cx| {
                             if let Some(w) = sols.iter().find(|s| list.iter().all(|p| p.holds(s))) {
                                 cx.violation("spurious-unsat-under-assumptions", format!("{what}: but {w:?} satisfies the accumulated model and the assumptions"));
